@@ -139,7 +139,7 @@ func sxStrs(l []string) string {
 // ---------- prefix maps ----------
 
 var globals = []string{"derive", "d", "my", "generate", "deriveX", "X_", "derived", "gen_", "D", "", "deriv", "goderive"}
-var fresh = []string{"eq", "cmp", "hsh", "srt", "fm", "ky", "st", "mn", "mx", "uq", "ct", "cpy", "zz", "mk"}
+var fresh = []string{"eq", "cmp", "hsh", "srt", "fm", "ky", "st", "mn", "mx", "uq", "ct", "cpy", "zz", "mak"}
 var exts = []string{"X", "Of", "_", "2", "s", "ed", "Set", "All"}
 
 // genConfig draws a prefix map. minCut is the shortest cut used for nesting overrides.
